@@ -709,6 +709,7 @@ func nodifyMethod(nodes []signature.Node) signature.Node {
 
 	if uid, ok := commentNode.(uint32); ok {
 		method.ID = uid
+		method.explicitID = true
 	}
 	return method
 }
@@ -730,6 +731,7 @@ func nodifySignal(nodes []signature.Node) signature.Node {
 	signal.Params = params
 	if uid, ok := commentNode.(uint32); ok {
 		signal.ID = uid
+		signal.explicitID = true
 	}
 	return signal
 }
@@ -751,6 +753,7 @@ func nodifyProperty(nodes []signature.Node) signature.Node {
 	prop.Params = params
 	if uid, ok := commentNode.(uint32); ok {
 		prop.ID = uid
+		prop.explicitID = true
 	}
 	return prop
 }
@@ -770,19 +773,19 @@ func nodifyActionList(nodes []signature.Node) signature.Node {
 			return err
 		}
 		if method, ok := node.(Method); ok {
-			if method.ID == 0 && method.Name != "registerEvent" {
+			if !method.explicitID && method.Name != "registerEvent" {
 				method.ID = customAction
 				customAction++
 			}
 			itf.Methods[method.ID] = method
 		} else if signal, ok := node.(Signal); ok {
-			if signal.ID == 0 {
+			if !signal.explicitID {
 				signal.ID = customAction
 				customAction++
 			}
 			itf.Signals[signal.ID] = signal
 		} else if property, ok := node.(Property); ok {
-			if property.ID == 0 {
+			if !property.explicitID {
 				property.ID = customAction
 				customAction++
 			}
